@@ -33,17 +33,18 @@ VARIABLES ids,       \* identities in the keychain
           attached,  \* attach_keychain_register was called
           routes,    \* identities that got a route
           q,         \* the question being answered: NoQ or a record
-          reply      \* set of <<i, k, c>> the register may answer q with ({} = no Data)
-vars == <<ids, kc, attached, routes, q, reply>>
+          reply,     \* set of <<i, k, c>> the register answers q with, as coded ({} = no Data)
+          ideal      \* Intended(q): what a register without DevShapesOnly may answer as well
+vars == <<ids, kc, attached, routes, q, reply, ideal>>
 
 NoQ == [i |-> "-", cls |-> "-", k |-> "-", c |-> "-", cbp |-> FALSE, par |-> FALSE]
 Classes == {"id", "KEY", "key", "issuer", "cert", "certx"}
 NoKey == [has |-> FALSE, certs |-> {}]
 
 Init == /\ ids = {} /\ kc = [i \in Ids |-> [k \in KeyIds |-> NoKey]]
-        /\ attached = FALSE /\ routes = {} /\ q = NoQ /\ reply = {}
+        /\ attached = FALSE /\ routes = {} /\ q = NoQ /\ reply = {} /\ ideal = {}
 
-Mut == q = NoQ /\ UNCHANGED <<attached, routes, q, reply>>
+Mut == q = NoQ /\ UNCHANGED <<attached, routes, q, reply, ideal>>
 NewIdentity(i) == /\ Mut /\ i \notin ids /\ ids' = ids \cup {i} /\ UNCHANGED kc
 \* KeychainSqlite3.new_key: key + self-signed certificate
 NewKey(i, k) == /\ Mut /\ i \in ids /\ ~kc[i][k].has
@@ -55,7 +56,7 @@ DelCert(i, k, c) == /\ Mut /\ i \in ids /\ kc[i][k].has /\ c \in kc[i][k].certs
 DelKey(i, k) == /\ Mut /\ i \in ids /\ kc[i][k].has
                 /\ kc' = [kc EXCEPT ![i][k] = NoKey] /\ UNCHANGED ids
 Attach == /\ q = NoQ /\ ~attached /\ attached' = TRUE /\ routes' = ids
-          /\ UNCHANGED <<ids, kc, q, reply>>
+          /\ UNCHANGED <<ids, kc, q, reply, ideal>>
 
 \* ---- what is stored, and which stored certificates satisfy a question (NDN matching: prefix / equality)
 Stored == {<<i, k, c>> \in Ids \X KeyIds \X CertIds : i \in ids /\ kc[i][k].has /\ c \in kc[i][k].certs}
@@ -84,10 +85,10 @@ Canonical(x) == /\ x.cls \in {"id", "KEY"} => x.k = "ghost" /\ x.c = "ghost"
                 \* parameters only matter on the shapes that are served otherwise
                 /\ x.par => x.cls \in {"key", "cert"} /\ x.k # "ghost" /\ (x.cls = "cert" => x.c # "ghost")
 AskAny(x) == /\ q = NoQ /\ x \in Questions
-             /\ q' = x /\ reply' = Coded(x)
+             /\ q' = x /\ reply' = Coded(x) /\ ideal' = Intended(x)
              /\ UNCHANGED <<ids, kc, attached, routes>>
 Ask(x) == Canonical(x) /\ AskAny(x)
-Clear == /\ q # NoQ /\ q' = NoQ /\ reply' = {} /\ UNCHANGED <<ids, kc, attached, routes>>
+Clear == /\ q # NoQ /\ q' = NoQ /\ reply' = {} /\ ideal' = {} /\ UNCHANGED <<ids, kc, attached, routes>>
 
 Next == \/ \E i \in Ids : NewIdentity(i)
         \/ \E i \in Ids, k \in KeyIds : NewKey(i, k) \/ DelKey(i, k)
@@ -97,11 +98,17 @@ Next == \/ \E i \in Ids : NewIdentity(i)
         \/ Clear
 Spec == Init /\ [][Next]_vars
 
+\* What a conforming application may put on the face for q (obs = sequence of certificate slots): as coded, or - the
+\* deviation repaired - a certificate that satisfies the Interest where the code answers nothing.
+Conforms(obs) == \/ reply = {} /\ Len(obs) = 0
+                 \/ reply # {} /\ Len(obs) = 1 /\ obs[1] \in reply
+                 \/ reply = {} /\ Len(obs) = 1 /\ obs[1] \in ideal
+
 \* ---------------------------------------------------------------- design-level statements
 TypeOK == /\ ids \subseteq Ids /\ routes \subseteq Ids /\ attached \in BOOLEAN
           /\ \A i \in Ids, k \in KeyIds : kc[i][k].certs \subseteq CertIds /\ (~kc[i][k].has => kc[i][k].certs = {})
 \* whatever is served is stored now, belongs to an identity with a route, and satisfies the Interest
-ServesOnlySatisfying == q # NoQ => reply \subseteq Intended(q)
+ServesOnlySatisfying == q # NoQ => reply \subseteq Intended(q) /\ ideal = Intended(q)
 \* the two documented shapes are served completely
 DocumentedShapes == q # NoQ /\ ((q.cbp /\ q.cls = "key") \/ (~q.cbp /\ q.cls = "cert")) => reply = Intended(q)
 \* without CanBePrefix at most one certificate can be the answer
